@@ -1,4 +1,5 @@
 import TensorModel.Proofs.Slice
+import TensorModel.Proofs.CoreEq
 /-!
   C02 — slicing selects exactly the requested sub-array.
   Property theorems only; helper lemmas live in `TensorModel/Proofs/Slice.lean`.
@@ -101,5 +102,44 @@ example : (match sliceDetails (some ⟨1, 7, 2⟩) 5 with | .ok (1, 5, 2) => tru
 example : (match AP.S { shape := [4, 5], strides := [5, 1] } 20 [some ⟨1, 3, 1⟩, some ⟨0, 5, 2⟩] with
     | .ok (nap, s, e) => nap.shape == [2, 3] && nap.strides == [5, 2] && s == 5 && e == 15
     | _ => false) = true := by decide
+
+/-! ## the regenerated source of `utils.go:CheckSlice` / `SliceDetails` -/
+
+/-- outcome class of the translated `SliceDetails` (three values + error) -/
+def clsSD (r : Gen.GoM (Int × Int × Int × Gen.GoErr)) : Gen.Cls (Int × Int × Int) :=
+  match r with
+  | .ok (a, b, c, none) => .val (a, b, c)
+  | .ok (_, _, _, some _) => .err
+  | .error (.panic _) => .panic
+  | .error .fuel => .fuel
+
+/-- the source of `SliceDetails` (with `CheckSlice` inlined by the call), translated by `tools/gol` on
+    this run, is the model function `sliceDetails` — for every slice (nil included) and every size. -/
+theorem SliceDetails_source_is_model (s : Option Sl) (size : Int) :
+    clsSD (Gen.SliceDetails s size) = Gen.clsM (sliceDetails s size) :=
+  Gen.SliceDetails_eq s size
+
+/-- `SliceDetails` (source) refuses exactly the reversed / negative / past-the-axis / zero-step slices -/
+theorem SliceDetails_source_rejects (s : Sl) (d : Int) :
+    clsSD (Gen.SliceDetails (some s) d) = .err ↔
+      (s.start > s.stop ∨ s.start < 0 ∨ s.start ≥ d ∨ (s.step = 0 ∧ s.stop - s.start > 1)) := by
+  rw [SliceDetails_source_is_model, ← sliceDetails_rejects]
+  constructor
+  · intro h
+    cases hr : sliceDetails (some s) d with
+    | ok v => rw [hr] at h; cases h
+    | error e => cases e with
+      | err tag => exact ⟨tag, rfl⟩
+      | panic tag => rw [hr] at h; cases h
+  · intro ⟨tag, h⟩; rw [h]; rfl
+
+/-- … and returns an accepted one with its end clamped to the axis length -/
+theorem SliceDetails_source_accepts (s : Sl) (d : Int)
+    (h : ¬ (s.start > s.stop ∨ s.start < 0 ∨ s.start ≥ d ∨ (s.step = 0 ∧ s.stop - s.start > 1))) :
+    clsSD (Gen.SliceDetails (some s) d) = .val (s.start, min s.stop d, s.step) := by
+  rw [SliceDetails_source_is_model, sliceDetails_accepts s d h]; rfl
+
+example : clsSD (Gen.SliceDetails (some ⟨1, 9, 2⟩) 5) = .val (1, 5, 2) := by decide
+example : clsSD (Gen.SliceDetails (some ⟨3, 2, 1⟩) 5) = .err := by decide
 
 end TM.C02
